@@ -72,53 +72,89 @@ var solvers = []solverDef{
 	{"cvc5", "cvc5", func(sec int) []string { return []string{fmt.Sprintf("--tlimit=%d", sec*1000)} }},
 }
 
+var raceSem = make(chan struct{}, 5)
+
 // solveQuery decides one query. Verdict: unsat | sat | unknown | timeout | error
+//   1. quantified queries: z3-new restricted to E-matching (our quantifiers carry explicit
+//      triggers; this is the fast, stable configuration for valid goals)
+//   2. z3-new, default configuration (model-based instantiation: finds counterexamples)
+//   3. race z3-new / z3 4.8.12 / cvc5 with the full budget
 func solveQuery(cfg *SolverCfg, q *Query, file string, stats *solverStats) {
 	sec := int(cfg.Timeout.Seconds())
 	if sec < 1 {
 		sec = 1
 	}
 	ctx := context.Background()
-	// first attempt: z3-new with a short budget
 	quick := sec
 	if quick > 3 {
 		quick = 3
 	}
-	v, s := runSolver(ctx, solvers[0].bin, solvers[0].args(quick), file, time.Duration(quick)*time.Second)
-	total := s
-	solver := solvers[0].name
-	if v != "sat" && v != "unsat" {
+	if q.Cover && quick > 2 {
+		quick = 2
+	}
+	quantified := strings.Contains(q.SMT, "(forall ") || strings.Contains(q.SMT, "(exists ")
+	var v, solver string
+	var total float64
+	if quantified && !q.Cover {
+		args := append([]string{"smt.auto_config=false", "smt.mbqi=false", "smt.ematching=true"}, solvers[0].args(quick)...)
+		vv, s := runSolver(ctx, solvers[0].bin, args, file, time.Duration(quick)*time.Second)
+		total += s
+		if vv == "unsat" {
+			v, solver = vv, "z3-new(ematch)"
+		}
+	}
+	if v == "" {
+		vv, s := runSolver(ctx, solvers[0].bin, solvers[0].args(quick), file, time.Duration(quick)*time.Second)
+		total += s
+		v, solver = vv, solvers[0].name
+	}
+	if v != "sat" && v != "unsat" && !q.Cover {
 		// race all three with the full budget
 		type r struct {
 			v, name string
 			s       float64
 		}
+		raceSem <- struct{}{}
 		rctx, cancel := context.WithCancel(ctx)
-		ch := make(chan r, len(solvers))
+		ch := make(chan r, len(solvers)+1)
+		n := 0
 		for _, sd := range solvers {
 			sd := sd
+			n++
 			go func() {
 				vv, ss := runSolver(rctx, sd.bin, sd.args(sec), file, time.Duration(sec)*time.Second)
 				ch <- r{vv, sd.name, ss}
 			}()
 		}
+		if quantified {
+			n++
+			go func() {
+				args := append([]string{"smt.auto_config=false", "smt.mbqi=false", "smt.ematching=true"}, solvers[0].args(sec)...)
+				vv, ss := runSolver(rctx, solvers[0].bin, args, file, time.Duration(sec)*time.Second)
+				if vv != "unsat" {
+					vv = "unknown"
+				}
+				ch <- r{vv, "z3-new(ematch)", ss}
+			}()
+		}
 		best := r{v: v, name: solver}
-		for i := 0; i < len(solvers); i++ {
+		for i := 0; i < n; i++ {
 			got := <-ch
 			if got.v == "sat" || got.v == "unsat" {
 				best = got
 				break
 			}
 			if best.v != "unknown" && got.v == "unknown" {
-				best = got
+				best.v, best.name = got.v, got.name
 			} else if strings.HasPrefix(best.v, "error") && got.v == "timeout" {
-				best = got
+				best.v, best.name = got.v, got.name
 			}
 			if got.s > best.s {
 				best.s = got.s
 			}
 		}
 		cancel()
+		<-raceSem
 		v, solver = best.v, best.name
 		total += best.s
 	}
